@@ -158,7 +158,10 @@ struct NinjaMain : public BuildLogUser {
   /// Rebuild the manifest, if necessary.
   /// Fills in \a err on error.
   /// @return true if the manifest was rebuilt.
-  bool RebuildManifest(const char* input_file, string* err, Status* status);
+  /// When the rebuild was attempted and failed, \a exit_status holds the exit
+  /// code of that build (a failed command's, or the interrupt status).
+  bool RebuildManifest(const char* input_file, string* err, Status* status,
+                       ExitStatus* exit_status);
 
   /// For each edge, lookup in build log how long it took last time,
   /// and record that in the edge itself. It will be used for ETA prediction.
@@ -268,7 +271,7 @@ int GuessParallelism() {
 /// Rebuild the build manifest, if necessary.
 /// Returns true if the manifest was rebuilt.
 bool NinjaMain::RebuildManifest(const char* input_file, string* err,
-                                Status* status) {
+                                Status* status, ExitStatus* exit_status) {
   string path = input_file;
   if (path.empty()) {
     *err = "empty path";
@@ -295,8 +298,11 @@ bool NinjaMain::RebuildManifest(const char* input_file, string* err,
   if (jobserver_client.get())
     builder.SetJobserverClient(std::move(jobserver_client));
 
-  if (builder.Build(err) != ExitSuccess)
+  ExitStatus build_status = builder.Build(err);
+  if (build_status != ExitSuccess) {
+    *exit_status = build_status;
     return false;
+  }
 
   // The manifest was only rebuilt if it is now dirty (it may have been cleaned
   // by a restat).
@@ -1933,7 +1939,9 @@ NORETURN void real_main(int argc, char** argv) {
       exit((ninja.*options.tool->func)(&options, argc, argv));
 
     // Attempt to rebuild the manifest before building anything else
-    if (ninja.RebuildManifest(options.input_file, &err, status)) {
+    ExitStatus rebuild_status = ExitFailure;
+    if (ninja.RebuildManifest(options.input_file, &err, status,
+                              &rebuild_status)) {
       // In dry_run mode the regeneration will succeed without changing the
       // manifest forever. Better to return immediately.
       if (config.dry_run)
@@ -1942,7 +1950,7 @@ NORETURN void real_main(int argc, char** argv) {
       continue;
     } else if (!err.empty()) {
       status->Error("rebuilding '%s': %s", options.input_file, err.c_str());
-      exit(1);
+      exit(rebuild_status);
     }
 
     ninja.ParsePreviousElapsedTimes();
